@@ -800,7 +800,10 @@ class Cache(object):
         db_tx.txid = txid
         t = self._parse_db_transaction(db_tx)
         if t.block_height:
-            t.confirmations = (self.blockcount() - t.block_height) + 1
+            # Without a current block count in the cache the number of confirmations stays as it was stored
+            blockcount = self.blockcount()
+            if blockcount and blockcount >= t.block_height:
+                t.confirmations = (blockcount - t.block_height) + 1
         return t
 
     def getaddress(self, address):
@@ -860,7 +863,9 @@ class Cache(object):
                 t = self._parse_db_transaction(db_tx)
                 if t:
                     if t.block_height:
-                        t.confirmations = (self.blockcount() - t.block_height) + 1
+                        blockcount = self.blockcount()
+                        if blockcount and blockcount >= t.block_height:
+                            t.confirmations = (blockcount - t.block_height) + 1
                     txs.append(t)
                     if len(txs) >= limit:
                         break
